@@ -287,9 +287,10 @@ func (n *Node) JSON() []byte {
 type Req struct {
 	Method string              `json:"method"`
 	Scheme string              `json:"scheme"`
-	Host   string              `json:"host"` // URL host
-	Path   string              `json:"path"`
-	Query  string              `json:"query,omitempty"` // raw query
+	Host   string              `json:"host"`                // URL host
+	Path   string              `json:"path"`                // decoded path (what conditions and modifiers see)
+	Wire   string              `json:"wire_path,omitempty"` // the path as spelled on the request line when that is not Go's canonical escaping of Path
+	Query  string              `json:"query,omitempty"`     // raw query
 	HostH  string              `json:"host_header,omitempty"`
 	Header map[string][]string `json:"header,omitempty"`
 	CL     int64               `json:"cl,omitempty"`
@@ -330,7 +331,7 @@ func (r *Res) Clone() *Res {
 
 // URLString renders the request URL the way net/url does.
 func (r *Req) URLString() string {
-	return (&url.URL{Scheme: r.Scheme, Host: r.Host, Path: r.Path, RawQuery: r.Query}).String()
+	return (&url.URL{Scheme: r.Scheme, Host: r.Host, Path: r.Path, RawPath: r.Wire, RawQuery: r.Query}).String()
 }
 
 // view is the header view of a message: Host and Content-Length live in
